@@ -48,6 +48,10 @@ def items(tier, seed):
         out += [{"k": "order", "cls": "Scalar", "qt": qt, "u": u, "v": v} for qt, u, v in seeded_sample(allp, 700, seed)]
     out += [{"k": "order", "cls": "FractionScalar", "qt": qt, "u": u, "v": v} for qt, u, v in seeded_sample(allp, 120 if tier == "quick" else 3000, seed + 1)]
     out += [{"k": "order", "cls": c, "qt": "length", "u": "m", "v": "cm"} for c in ("Scalar", "FractionScalar")]
+    for other in ("unknown", "unknown_caption", "empty", "s", "degC", "m2_derived", "-"):
+        for cls in ("Scalar", "FractionScalar"):
+            for side in ("left", "right"):
+                out.append({"k": "order_cross", "cls": cls, "other": other, "side": side})
     for u in ("m", "cm", "degC", "K", "psi", "kg", "s", "m3/d", "%", "-", "ft", "degF"):
         out.append({"k": "order_fp", "u": u})
     names = pool_names()
@@ -79,6 +83,10 @@ def pool(V):
     p = {}
     p["q_m"] = ObtainQuantity("m")
     p["q_m_depth"] = ObtainQuantity("m", "depth")
+    p["q_m_ctor"] = Quantity("length", "m")  # equal to q_m but not the interned instance
+    p["q_Mm3"] = ObtainQuantity("Mm3", "volume")
+    p["q_Mm3_legacy"] = Quantity("volume", "1000m3")
+    p["s_m_x_ctor"] = Scalar(Quantity("length", "m"), x)
     p["q_m2"] = (Scalar(1.0, "m") * Scalar(1.0, "m")).GetQuantity()
     p["q_empty"] = Quantity.CreateEmpty()
     p["q_unknownA"] = GetUnknownQuantity("A")
@@ -153,6 +161,18 @@ def run(cfg, V):
         else:
             a, b = FractionScalar(FractionValue(x, (1, 2)), cfg["u"], cfg["qt"]), FractionScalar(y, cfg["v"], cfg["qt"])
         return {"ab": (a < b, a <= b, a > b, a >= b), "ba": (b < a, b <= a, b > a, b >= a), "eq": (a == b, b == a, a != b)}
+    if k == "order_cross":
+        from barril.units import GetUnknownQuantity
+
+        cls = Scalar if cfg["cls"] == "Scalar" else FractionScalar
+        a = cls(x, "m")
+        o = cfg["other"]
+        b = {"unknown": lambda: cls(GetUnknownQuantity(), y), "unknown_caption": lambda: cls(GetUnknownQuantity("cap"), y), "empty": lambda: cls.CreateWithQuantity(
+            __import__("barril.units", fromlist=["Quantity"]).Quantity.CreateEmpty(), y), "s": lambda: cls(y, "s"), "degC": lambda: cls(y, "degC"),
+             "m2_derived": lambda: cls.CreateWithQuantity((Scalar(1.0, "m") * Scalar(1.0, "m")).GetQuantity(), y), "-": lambda: cls(y, "-")}[o]()
+        if cfg["side"] == "left":
+            a, b = b, a
+        return {"res": [_try(f) for f in (lambda: a < b, lambda: a <= b, lambda: a > b, lambda: a >= b)]}
     if k == "order_fp":
         a, b = Scalar(x, cfg["u"]), Scalar(y, cfg["u"])
         return {"ab": (a < b, a <= b, a > b, a >= b), "ba": (b < a, b <= a, b > a, b >= a), "eq": (a == b, b == a, a != b)}
@@ -198,6 +218,8 @@ def props(cfg, T, obs):
         if cfg.get("canary"):
             P.append(("canary:a<b whenever x<y (ignoring units)", B(lt) == (x < y)))
         return P
+    if k == "order_cross":
+        return [("ordering values of different quantity types raises TypeError (all four operators)", all(r == ("raised", "TypeError") for r in obs["res"]))]
     if k == "order_fp":
         (lt, le, gt, ge), (lt2, le2, gt2, ge2) = obs["ab"], obs["ba"]
         x, y = T["x"], T["y"]
@@ -223,6 +245,8 @@ def props(cfg, T, obs):
 def finding_key(cfg, name):
     if cfg["k"] == "eq":
         return "eq %s vs %s :: %s" % (cfg["a"], cfg["b"], name)
+    if cfg["k"] == "order_cross":
+        return "order %s(m) vs %s on the %s :: %s" % (cfg["cls"], cfg["other"], cfg["side"], name)
     if name.endswith("[strict, FractionScalar]"):
         return "FractionScalar order, converted fractional part within Fraction.SMALL of equality :: " + name
     return "%s %s %s[%s] vs [%s] :: %s" % (cfg["k"], cfg.get("cls", "Scalar"), cfg.get("qt", ""), cfg["u"], cfg.get("v", cfg["u"]), name)
